@@ -65,12 +65,16 @@ pub fn universe(prop: &'static str, tier: Tier) -> Universe {
         is_async: false,
     });
     let t4 = t.add_resource(Resource { name: "r".into(), alias: None });
+    // mentions two distinct defined types, one of which mentions the other: a diamond of
+    // dependencies (direct and transitive reading agree)
+    let t5 = t.add_defined_type(DefinedType::Tuple(vec![ValueType::Defined(t0), ValueType::Defined(t1)]));
     u.def_type_ids = vec![
         Type::Value(ValueType::Defined(t0)),
         Type::Value(ValueType::Defined(t1)),
         Type::Value(ValueType::Defined(t2)),
         Type::Func(t3),
         Type::Resource(t4),
+        Type::Value(ValueType::Defined(t5)),
     ];
     u.def_types = vec![
         DefTypeSpec { label: "T0=u32", is_resource: false, refs_direct: vec![], refs_transitive: vec![] },
@@ -78,6 +82,7 @@ pub fn universe(prop: &'static str, tier: Tier) -> Universe {
         DefTypeSpec { label: "T2=alias T0", is_resource: false, refs_direct: vec![], refs_transitive: vec![0] },
         DefTypeSpec { label: "T3=func(a:T1)", is_resource: false, refs_direct: vec![1], refs_transitive: vec![0, 1] },
         DefTypeSpec { label: "T4=resource", is_resource: true, refs_direct: vec![], refs_transitive: vec![] },
+        DefTypeSpec { label: "T5=tuple<T0,T1>", is_resource: false, refs_direct: vec![0, 1], refs_transitive: vec![0, 1] },
     ];
     let s = |v: &[&str]| v.iter().map(|x| x.to_string()).collect::<Vec<_>>();
     u.alias_names = s(&["g", "j", "f", "i", "x", "zz"]);
@@ -126,6 +131,8 @@ pub fn seeds() -> Vec<Vec<Op>> {
         ],
         // types defined dependants first
         vec![Op::DefineType(s("t1"), 1), Op::DefineType(s("e1"), 0)],
+        // a diamond of definitions, dependants first: T5 = tuple<T0, T1>, T1 = record{T0}, T0
+        vec![Op::DefineType(s("e2"), 5), Op::DefineType(s("t1"), 1), Op::DefineType(s("e1"), 0)],
         // a node exported under two names, and an explicit import used as argument
         vec![
             Op::Register(0),
